@@ -112,7 +112,10 @@ def main(argv):
                "distinct = distinct (n, key set, insertion order)")
     ck.trusted = ["Coq 8.16.1 kernel + vm_compute", "checks/c16.py correspondence harness and its compact case decoder (nbits)",
                   "model coq/Model/FixCounts.v is hand-written: tied to simulations_utility.fix_counts only by correspondence",
-                  "Python dict/sorted/int/format semantics as modelled (dict_of, sort_items, pyint2, format_b, zfill)"]
+                  "Python dict/sorted/int/format semantics as modelled (dict_of, sort_items, pyint2, format_b, zfill)",
+                  "third clause (C16_simulator_result_little_endian): Model/SimRun.v, the hand-written model of MrAndersonSimulator.run()'s validation, normalisation and "
+                  "_measurament, is tied to simulator.py by C14's exact correspondence (run in C14's check); here the clause is additionally run against Qiskit's Statevector; "
+                  "over the reals: stdlib ClassicalDedekindReals.sig_forall_dec / sig_not_dec and FunctionalExtensionality.functional_extensionality_dep"]
     ck.assume = ["values are compared as Python ints (the function never computes with values)"]
     from quantum_gates._utility.simulations_utility import fix_counts
 
